@@ -48,6 +48,7 @@ type xTriple struct {
 }
 
 type pools struct {
+	xlong  []xTriple // the same keys, a 5000-byte message each
 	x      []xTriple // valid XMSS triples from 3 different keys (3 hash functions)
 	xseeds [][]byte  // seeds for goroutine-private XMSS keys
 	xrefs  []*xmssref.Key
@@ -78,13 +79,15 @@ func getPools() *pools {
 		var pk [67]byte
 		copy(pk[:], pu.RefPK(ref, hf))
 		p.x = append(p.x, xTriple{msg, sig, bad, pk})
+		lmsg := pu.DetBytes(uint64(2500+i), 5000+i)
+		p.xlong = append(p.xlong, xTriple{lmsg, ref.Sign(uint32(9+i), lmsg), nil, pk})
 		p.xseeds = append(p.xseeds, seed)
 		p.xrefs = append(p.xrefs, ref)
 	}
 	for i := 0; i < 3; i++ {
 		seed := pu.DetBytes(uint64(3000+i), 48)
 		ref := pu.DilRef(seed)
-		if os.Getenv("VERIF_ALONE_OP") == "" || strings.Contains(os.Getenv("VERIF_ALONE_OP"), "shared") {
+		if os.Getenv("VERIF_ALONE_OP") == "" || strings.Contains(os.Getenv("VERIF_ALONE_OP"), "shared") || strings.Contains(os.Getenv("VERIF_ALONE_OP"), "reusedbuf") {
 			// the SHARED library key objects; a child computing a call's result "alone" builds them only if the call needs them
 			d, err := pu.DilKey(seed)
 			if err != nil {
@@ -125,7 +128,7 @@ type program struct {
 }
 
 var ops = []string{"xmss.Verify", "xmss.Verify.bad", "xmss.Address", "xmss.IsValidAddress", "xmss.LegacyAddress", "xmss.IsValidLegacy", "descriptor", "mnemonic.enc48", "mnemonic.dec48", "mnemonic.enc51", "mnemonic.dec51", "mnemonic.bad",
-	"dil.Verify", "dil.Verify.bad", "dil.Verify.malformed", "dil.Open", "dil.Address", "dil.IsValidAddress", "dil.Sign.shared", "dil.Seal.shared", "dil.getters.shared", "xmss.private.Sign", "xmss.private.SetIndex", "xmss.private.getters", "xmss.VerifyW", "xmss.VerifyW", "xmss.helpers"}
+	"dil.Verify", "dil.Verify.bad", "dil.Verify.malformed", "dil.Open", "dil.Address", "dil.IsValidAddress", "dil.Sign.shared", "dil.Seal.shared", "dil.getters.shared", "xmss.private.Sign", "xmss.private.SetIndex", "xmss.private.getters", "xmss.VerifyW", "xmss.VerifyW", "xmss.helpers", "xmss.Verify.long", "xmss.IsValidLegacy.bad", "dil.Verify.lookalike", "dil.Sign.reusedbuf"}
 
 // Winternitz parameters presented to VerifyWithCustomWOTSParamW: the three supported ones and, per size class,
 // one value that the parameter validation also lets through (truncated log2): 17 ~ 16, 5 ~ 4, 300 ~ 256.
@@ -147,8 +150,12 @@ func expected(p *pools, c callSpec) string {
 	switch c.Op {
 	case "xmss.Verify":
 		return "true"
-	case "xmss.Verify.bad":
+	case "xmss.Verify.bad", "xmss.IsValidLegacy.bad", "dil.Verify.lookalike":
 		return "false"
+	case "xmss.Verify.long":
+		return "true"
+	case "dil.Sign.reusedbuf":
+		return hex.EncodeToString(p.dsigs[[2]int{a, c.B % 3}])[:64] + "/" + hex.EncodeToString(p.dsigs[[2]int{a, (c.B + 1) % 3}])[:64]
 	case "xmss.helpers":
 		d := codecref.Desc(uint(a), uint(c.B%2), uint(4+2*(c.B%4)), 0)
 		return fmt.Sprintf("truetruetrue/0102030405060708/%x", d)
@@ -274,6 +281,35 @@ func execCall(p *pools, c callSpec, priv *privKey) (res string) {
 		return fmt.Sprint(xmss.Verify(p.x[a].msg, p.x[a].sig, p.x[a].pk))
 	case "xmss.Verify.bad":
 		return fmt.Sprint(xmss.Verify(p.x[a].msg, p.x[a].bad, p.x[a].pk))
+	case "xmss.Verify.long":
+		return fmt.Sprint(xmss.Verify(p.xlong[a].msg, p.xlong[a].sig, p.xlong[a].pk))
+	case "xmss.IsValidLegacy.bad":
+		l := xmss.GetLegacyXMSSAddressFromPK(p.x[a].pk)
+		l[35+c.B%4] ^= byte(1 << uint(c.B%8)) // a checksum byte damaged
+		return fmt.Sprint(xmss.IsValidLegacyXMSSAddress(l))
+	case "dil.Verify.lookalike":
+		var s [dilithium.CryptoBytes]byte
+		copy(s[:], p.dsigs[[2]int{a, c.B % 3}])
+		pk := p.dpk[a]
+		bit := 64 + (c.B*1009)%(len(pk)*8-64)
+		pk[bit/8] ^= 1 << uint(bit%8)
+		return fmt.Sprint(dilithium.Verify(p.dmsgs[c.B%3], s, &pk))
+	case "dil.Sign.reusedbuf":
+		// two messages signed through ONE buffer overwritten in place (private to the calling goroutine)
+		m1, m2 := p.dmsgs[c.B%3], p.dmsgs[(c.B+1)%3]
+		n := len(m1)
+		if len(m2) > n {
+			n = len(m2)
+		}
+		buf := make([]byte, n)
+		copy(buf, m1)
+		s1, e1 := p.d[a].Sign(buf[:len(m1)])
+		copy(buf, m2)
+		s2, e2 := p.d[a].Sign(buf[:len(m2)])
+		if e1 != nil || e2 != nil {
+			return fmt.Sprint("error ", e1, e2)
+		}
+		return hex.EncodeToString(s1[:])[:64] + "/" + hex.EncodeToString(s2[:])[:64]
 	case "xmss.VerifyW":
 		w := wChoices[c.B%len(wChoices)]
 		return fmt.Sprint(xmss.VerifyWithCustomWOTSParamW(p.x[a].msg, wSig(p, a, w), p.x[a].pk, w))
@@ -546,7 +582,7 @@ func TestPrograms(t *testing.T) {
 	// alternation storms: 8 goroutines hammer ONE operation family, every goroutine switching to another pool
 	// entry (key / public key / seed) on every round - the access pattern that defeats a cache keyed on "the
 	// last key used" (sequentially detectable too) or published in two steps (only concurrently)
-	for _, op := range []string{"dil.Verify.malformed", "dil.Verify", "dil.Open", "dil.Sign.shared", "dil.Address", "xmss.Verify", "xmss.Address", "mnemonic.dec48", "xmss.VerifyW"} {
+	for _, op := range []string{"dil.Verify.malformed", "dil.Verify.lookalike", "dil.Verify", "dil.Open", "dil.Sign.shared", "dil.Sign.reusedbuf", "xmss.Verify.long", "dil.Address", "xmss.Verify", "xmss.Address", "mnemonic.dec48", "xmss.VerifyW"} {
 		const G, R = 8, 24
 		var wg sync.WaitGroup
 		start := make(chan struct{})
